@@ -1442,8 +1442,8 @@ func (w *c12worker) corrBatch(or *Oracle, texts [][]byte, g *c12gen) {
 			continue
 		}
 		for rep := 0; rep < 2; rep++ {
-			if !w.c.Thorough() && !w.replay && rep != ti%2 {
-				continue // quick tier: default options for every other text, random options for the rest
+			if !w.c.Thorough() && !w.replay && (ti%4 != 0 || rep != (ti/4)%2) {
+				continue // quick tier: one text in four, alternating default options / random options
 			}
 			var items []optItem
 			if rep == 1 {
@@ -1519,7 +1519,7 @@ func (w *c12worker) corrBatch(or *Oracle, texts [][]byte, g *c12gen) {
 	// Value.IsValid under the four combinations of the validation options vs the model
 	var vlines, vwant []string
 	for ti, t := range texts {
-		if len(t) > 5000 || (!w.c.Thorough() && !w.replay && ti%2 == 1) {
+		if len(t) > 5000 || (!w.c.Thorough() && !w.replay && ti%4 != 2) {
 			continue
 		}
 		u, d := g.rng.IntN(2) == 0, g.rng.IntN(2) == 0
@@ -1670,7 +1670,7 @@ func runC12(c *Ctx) {
 	}
 	nWorkers := c.N(4, 16)
 	nTexts := c.N(20000, 1000000)
-	perText := c.N(16, 10) // option lists per text; each with all 5 entry points => 80 / 50 calls per text
+	perText := c.N(12, 10) // option lists per text; each with all 5 entry points => 80 / 50 calls per text
 	enumLen := c.N(3, 4)
 
 	// fixed boundary texts (evaluated by worker 0 with many option lists)
@@ -1768,8 +1768,8 @@ func runC12(c *Ctx) {
 				}
 				w.runDeep(dc, dc.wrap == c12MaxDepth-1 && dc.pattern == "arrays" && dc.leaf == "{}")
 				// correspondence (`fmt compact`): the model's depth check walks the stack, ~1 s per text, so the
-				// quick tier sends the "mixed" pattern (all wraps x all leaves) and the thorough tier everything
-				if c.Thorough() || dc.pattern == "mixed" {
+				// quick tier sends the "mixed" pattern at the two wraps that straddle the limit (x all leaves) and the thorough tier everything
+				if c.Thorough() || (dc.pattern == "mixed" && (dc.wrap == c12MaxDepth || dc.wrap == c12MaxDepth-1)) {
 					batch = append(batch, dc.text)
 				}
 				if len(batch) >= 8 {
